@@ -158,6 +158,17 @@ def connOp (sc : Scn) (cid : String) (dc : DConn) (op : String) (args ts : List 
       let (e, w) := writeJSON w p dnp fullp (kvChunks ts "dnw") ((kvHex ts "full").getD [])
       fin w (eres e)
     | none => (sc, "bad-op")
+  | "wjf", _ =>
+    -- WriteJSON of a value encoding/json rejects: the writer is opened, nothing is written, the writer is
+    -- closed (an empty text message goes out); the encoder's error is returned unless NextWriter failed
+    match nextWriter w 1 dnp fullp with
+    | (.error e, w) => fin w (eres (some e))
+    | (.ok h, w) =>
+      let (_, w) := hClose w h (kvChunks ts "dnw") ((kvHex ts "full").getD [])
+      fin w "err json"
+  | "cc", _ =>
+    -- Conn.Close: closes the network connection; the write side's state is untouched
+    fin w "ok"
   | "wc", t :: hex :: d :: _ =>
     match t.toInt?, fromHex hex, d.toInt? with
     | some t, some p, some d =>
